@@ -468,7 +468,10 @@ def pointer_grammar(model: Dict[str, Any], backend: str) -> List[Tuple[str, str,
     if V >= 1:
         digits.append(("digits_previous_version", str(V - 1)))
     for fine, d in digits:
-        add(fine, cls_of_name(f"v{d.strip()}.metadata.json", d != d.strip()), d.encode())
+        coarse_d = cls_of_name(f"v{d.strip()}.metadata.json", d != d.strip())
+        if fine == "digits_999" and coarse_d == "unusable":
+            coarse_d = "names_missing_higher"
+        add(fine, coarse_d, d.encode())
     add("legacy_name_current_version", cls_of_name(f"v{V}.metadata.json", False), f"v{V}.metadata.json".encode())
     # well-formed names
     if V >= 1:
@@ -480,7 +483,7 @@ def pointer_grammar(model: Dict[str, Any], backend: str) -> List[Tuple[str, str,
                        ("missing_older_version_other_suffix", f"v{max(V - 1, 0)}-0badc0de.metadata.json")):
         if name in names:
             raise HarnessError(f"grammar: {name} exists")
-        add(fine, "unusable", name.encode())
+        add(fine, "names_missing_higher" if fine == "missing_higher_version" else "unusable", name.encode())
     m = re.match(r"^(v\d+-)([0-9a-f]{8})(\.metadata\.json)$", cur)
     up = (m.group(1) + m.group(2).upper() + m.group(3)) if m else cur.upper()
     if up == cur:
@@ -604,6 +607,7 @@ def run_case(store: Any, tpl: Dict[str, Any], model: Dict[str, Any], hid: str, p
     info: List[str] = []
     n_ok_appends = 0
     gc_ran = False
+    failed_closed = False
 
     def note(where: str, problem: str, **kw: Any) -> None:
         problems.append(dict(where=where, problem=problem, **kw))
@@ -618,6 +622,13 @@ def run_case(store: Any, tpl: Dict[str, Any], model: Dict[str, Any], hid: str, p
             if hid == "h4" and how == "load" and isinstance(e, ValueError) and "No Iceberg table" in str(e) \
                     and k == 0 and coarse != "valid_current":
                 info.append("h4_load_reports_no_table")  # nothing was ever committed: accepted
+            elif coarse == "names_missing_higher" and k == 0:
+                # A well-formed pointer naming a version ABOVE everything on storage testifies that a newer
+                # version was committed and is now missing. C14/C07 demand failing closed there (never present
+                # an older version as the table); "resolves to the latest committed version" is unsatisfiable.
+                # Both behaviours are accepted: refuse to open, or recover the highest version on storage.
+                info.append("fail_closed_on_pointer_to_missing_higher_version")
+                failed_closed = True
             else:
                 note(here, "open_failed", error=repr(e)[:200])
             break
@@ -655,7 +666,8 @@ def run_case(store: Any, tpl: Dict[str, Any], model: Dict[str, Any], hid: str, p
         del t
 
     # ---- re-open with another fresh handle; library view, then the independent reader -------------
-    opened = not (problems and problems[-1]["problem"] == "open_failed") and "h4_load_reports_no_table" not in info
+    opened = (not (problems and problems[-1]["problem"] == "open_failed") and "h4_load_reports_no_table" not in info
+              and not failed_closed)
     here = ">".join(done + ["reopen"])
     view = store.view()
     if opened:
